@@ -74,3 +74,29 @@ def make_diskdump(path, pages, max_pfn, ps=PS, methods=("raw",), rng=None):
     os.unlink(data)
     if r.returncode != 0:
         raise RuntimeError("mkdiskdump failed: " + r.stdout[-500:])
+
+
+# section headers, string table and Xen notes of an xc_core (HVM, .xen_pfn) dump
+XC_HEAD = '# based on dumps/sle15/domU-hvm/vmcore\n\n@shdr type=NULL\n\n@shdr type=STRTAB name=0x0001 offset=0x200\n00\n# 0x0001\n".shstrtab" 00\n# 0x000b\n".note.Xen" 00\n# 0x0015\n".xen_prstatus" 00\n# 0x0023\n".xen_shared_info" 00\n# 0x0034\n".xen_pages" 00\n# 0x003f\n".xen_pfn" 00\n\n@shdr type=NOTE name=0x000b offset=0x400\n# XEN_ELFNOTE_DUMPCORE_NONE\n00000004 00000000 02000000 "Xen" 00\n\n# XEN_ELFNOTE_DUMPCORE_HEADER\n00000004 00000020 02000001 "Xen" 00\n00000000f00febee # xch_magic\n0000000000000001 # xch_nr_vcpus\n%016x # xch_nr_pages\n0000000000001000 # xch_page_size\n\n# XEN_ELFNOTE_DUMPCORE_XEN_VERSION\n00000004 00000500 02000002 "Xen" 00\n0000000000000004 # major_version\n000000000000000a # minor_version\n".0_14-1" 00*9   # extra_version\n"gcc (SUSE Linux) 7.3.1 20180307 [gcc-7-branch revision 258314]" 00*2\n"abuild" 00*10\n"suse.de" 00*25\n"Thu Mar  1 16:36:03 UTC 2018" 00*4\n"xen-3.0-x86_64 xen-3.0-x86_32p hvm-3.0-x86_32 hvm-3.0-x86_32p hvm-3.0-x86_64"\n00*948\n00*64            # changeset\nffff800000000000 # virt_start\n0000000000001000 # pagesize\n\n# XEN_ELFNOTE_DUMPCORE_FORMAT_VERSION\n00000004 00000008 02000003 "Xen" 00\n0000000000000001\n\n\n'
+
+
+def make_xc_core(path, order, pages, ps=PS):
+    """Xen xc_core ELF (auto-translated guest): .xen_pfn lists the PFNs in `order` (any mixture of
+    ascending runs, descending runs and single pages), .xen_pages holds their contents in that order."""
+    data = path + ".data"
+    with open(data, "w") as f:
+        f.write(XC_HEAD % len(order))
+        f.write("@shdr type=PROGBITS name=0x003f offset=0x2000\n")
+        for p in order:
+            f.write("%016x\n" % p)
+        off = 0x2000 + ((8 * len(order) + 0xfff) & ~0xfff)
+        f.write("\n@shdr type=PROGBITS name=0x0034 offset=0x%x\n" % off)
+        for p in order:
+            f.write(hexlines(pages[p]))
+    cfg = ("ei_class = 2\nei_data = 1\nei_abiversion = 1\ne_machine = 62\ne_shoff = 0x40\n"
+           "e_shstrndx = 1\nDATA = %s\n" % data)
+    r = subprocess.run([os.path.join(TOOLS, "mkelf"), path], input=cfg, stdout=subprocess.PIPE,
+                       stderr=subprocess.STDOUT, universal_newlines=True)
+    os.unlink(data)
+    if r.returncode != 0:
+        raise RuntimeError("mkelf failed: " + r.stdout[-500:])
